@@ -65,7 +65,7 @@ def eval_config(ctx, cfg, with_model=True):
     opts = runs.options(solve_time=0.15, save_every=3, output_file=out, terminal_psi=tp, progress_interval=10**9, **cfg["opts"])
     sol = tdgl.solve(dev, opts, applied_vector_potential=cfg["A"], terminal_currents=cfg["cur"])
     frames, _ = runs.parse_h5(sol.path)
-    tsites = np.unique(np.concatenate([t.site_indices for t in dev.terminal_info()]))
+    tsites = np.unique(np.concatenate([t["sites"] for t in zoo.independent_terminals(dev).values()]))  # not via terminal_info()
     others = np.setdiff1d(np.arange(len(dev.mesh.sites)), tsites)
     psi0 = frames[0]["data"]["psi"]
     moved = np.zeros(len(psi0), dtype=bool)
